@@ -47,6 +47,14 @@ Section Spec.
     | _ :: r => stored_verifier r
     end.
 
+  (* every protected parameter occurs at most once in the URL: the value checked below is THE value *)
+  Definition count_key (k : string) (ps : params) : nat :=
+    List.length (filter (fun kv => String.eqb (fst kv) k) ps).
+  Definition protected_keys : list string :=
+    ["response_type"; "client_id"; "redirect_uri"; "scope"; "state"; "code_challenge"; "code_challenge_method"].
+  Definition single_valued (ps : params) : bool :=
+    forallb (fun k => count_key k ps <=? 1) protected_keys.
+
   (* C17_auth_url: the redirect goes to the configured endpoint with the configured
      client, redirect URI, scopes and the state that was put into the state cookie
      (these four only when no URLParamOpt overrides a reserved key), and with the
@@ -54,6 +62,7 @@ Section Spec.
   Definition auth_ok (s : string) (cs : list cookie_cmd) (base : string) (ps : params) : bool :=
     has_cmd (state_cookie cfg s) cs
     && String.eqb base (c_auth cfg)
+    && single_valued ps
     && (negb (extra_ok cfg)
         || (opt_is (plookup "response_type" ps) "code"
             && opt_is (plookup "client_id" ps) (c_client cfg)
@@ -114,6 +123,8 @@ Section Spec.
   Definition spec_step (hon : bool) (j : jar) (lg : logins) (o : op) (ev : event) : bool :=
     match o, ev with
     | OStart s _, EvAuth cs base ps => auth_ok s cs base ps
+    (* whatever the login request carried: the same demands *)
+    | OStartQ s _ _, EvAuth cs base ps => auth_ok s cs base ps
     (* a state the cookie cannot hold: no redirect is fine; a redirect must still bind that state *)
     | OStartFail s, EvAuth cs base ps => auth_ok s cs base ps
     | OStartFail _, EvOther => true
@@ -249,6 +260,7 @@ Definition path (i : input) (o : observed) : nat :=
       let classes := map (fun t => match t with
                                    | (j, _, OCallback q _ _, ev) => cb_class cfg j q ev
                                    | (_, _, OStart _ _, _) => 10
+                                   | (_, _, OStartQ _ _ _, _) => 10
                                    | (_, _, OStartFail _, _) => 10
                                    | _ => 0 end) tr in
       let mx := fold_left Nat.max classes 0 in
